@@ -21,6 +21,17 @@
  *   input line : hl0 hfill bg nlv lv_0 .. lv_{nlv-1} (idx mask)*    (nlv = sizeof(cd->mob_alloc_lv))
  *   output line: rc ma_len ma[0..N-1] (idx newmask)*
  *
+ * Mode "assign" (built with -DC20_WITH_ASSIGN on top of -DC20_WITH_RENDER): the REAL, verbatim texts of gsm48_rr_rx_imm_ass,
+ *   gsm48_rr_rx_imm_ass_ext, gsm48_match_ra, gsm48_decode_start_time (gsm48_rr.c, c20_assign_fn.inc) with the REAL struct
+ *   gsm48_rrlayer / gsm48_rr_cd / gsm48_cr_hist of gsm48_rr.h and IMM_ASS_HISTORY taken textually from gsm48_rr.c.  STUBBED: struct
+ *   osmocom_ms (rrlayer, cellsel, settings, meas), gsm_arfcn_refer_pcs (identity), rsl_dec_chan_nr, gsm_gsmtime2fn, l1ctl_tx_reset_req,
+ *   and gsm48_rr_dl_est = a stand-in that does what the real one does first: gsm48_rr_render_ma(ms, &rr->cd_now, ma, &ma_len) (REAL) with
+ *   ma[64] an exact-size heap block - this is the L1 boundary observed.  The message is an exact-size heap block.
+ *   input line : limit ours h hl0 hfill bg ntl tl_0 .. (idx mask)*   limit 8 = IMMEDIATE ASSIGNMENT, 4 = IMMEDIATE ASSIGNMENT EXTENDED;
+ *                ours = 0 none / 1 request reference (1) / 2 request reference 2; h = hopping channel description(s); tl = the message
+ *                from its mob_alloc_len octet on
+ *   output line: rc est lv[0..8] [cause ma_len ma[0..N-1] (idx newmask)*]
+ *
  * Mode "hist": histories of gsm48_decode_sysinfo4 / gsm48_decode_sysinfo1 (REAL, verbatim texts) on ONE struct gsm48_sysinfo in an
  *   exact-size heap block whose member behind si4_msg (si5_msg) is ASan-poisoned, so a read of si4_msg[23] by the re-decode is a report.
  *   STUBBED for gsm48_decode_sysinfo1: decode_freq_list (installs the given cell allocation: FREQ_TYPE_SERV replaced, other bits kept),
@@ -158,9 +169,9 @@ static int run_hist(int n, FILE *out)
 #include <osmocom/gsm/gsm_utils.h>
 struct osmocom_ms;
 #include <osmocom/bb/mobile/gsm48_rr.h>
-struct gsm322_cellsel { uint16_t arfcn; struct gsm48_sysinfo *si; };
+struct gsm322_cellsel { int selected; int neighbour; uint16_t arfcn; struct gsm48_sysinfo *si; };
 struct gsm_settings { uint8_t freq_map[128 + 38]; };
-struct osmocom_ms { struct gsm322_cellsel cellsel; struct gsm_settings settings; };
+struct osmocom_ms { struct gsm48_rrlayer rrlayer; struct gsm322_cellsel cellsel; struct gsm_settings settings; struct { uint32_t last_fn; } meas; };
 bool gsm_refer_pcs(uint16_t cell_arfcn, const struct gsm48_sysinfo *cell_s) { (void)cell_arfcn; (void)cell_s; return false; }
 char *gsm_print_arfcn(uint16_t arfcn) { (void)arfcn; return ""; }
 static int freq_list_called;
@@ -209,8 +220,104 @@ static int run_render(int n, FILE *out)
 	fprintf(out, "\n");
 	return 0;
 }
+#ifdef C20_WITH_ASSIGN
+#include <osmocom/core/msgb.h>
+#include <osmocom/gsm/rsl.h>
+#define L1CTL_RES_T_SCHED 2
+uint16_t gsm_arfcn_refer_pcs(uint16_t cell_arfcn, const struct gsm48_sysinfo *cell_s, uint16_t arfcn) { (void)cell_arfcn; (void)cell_s; return arfcn; }
+int rsl_dec_chan_nr(uint8_t chan_nr, uint8_t *type, uint8_t *subch, uint8_t *timeslot) { *type = chan_nr & 0xf8; *subch = 0; *timeslot = chan_nr & 7; return 0; }
+uint32_t gsm_gsmtime2fn(struct gsm_time *time) { (void)time; return 0; }
+int l1ctl_tx_reset_req(struct osmocom_ms *ms, uint8_t type) { (void)ms; (void)type; return 0; }
+static int est_calls, got_cause;
+static uint16_t *got_ma;
+static uint8_t *got_ma_len;
+/* the first thing the real gsm48_rr_dl_est does with the assigned channel */
+static int gsm48_rr_dl_est(struct osmocom_ms *ms)
+{
+	est_calls++;
+	got_cause = gsm48_rr_render_ma(ms, &ms->rrlayer.cd_now, got_ma, got_ma_len);
+	return 0;
+}
+
+#include "c20_assign_fn.inc"
+
+static int run_assign(int n, FILE *out)
+{
+	long limit, ours, h, hl0, hfill, bg, ntl; int i, k, np;
+	if (n < 7) return -1;
+	limit = tok[0]; ours = tok[1]; h = tok[2]; hl0 = tok[3]; hfill = tok[4]; bg = tok[5]; ntl = tok[6];
+	if ((limit != 8 && limit != 4) || ours < 0 || ours > 2 || (limit == 8 && ours == 2) || hl0 < 0 || hl0 > 255 || bg < 0 || bg > 255
+	    || ntl < 0 || ntl > n - 7 || hfill < 0 || hfill > 65535) return -1;
+	for (i = 0; i < ntl; i++) if (tok[7 + i] < 0 || tok[7 + i] > 255) return -1;
+	np = n - 7 - ntl;
+	if (np % 2) return -1;
+	{ long prev = -1; for (i = 0; i < np; i += 2) { long idx = tok[7 + ntl + i], m = tok[7 + ntl + i + 1];
+		if (idx <= prev || idx >= FREQ_SIZE || m < 0 || m > 255) return -1; prev = idx; } }
+
+	struct gsm48_sysinfo *s = calloc(1, sizeof(*s));
+	struct gsm_sysinfo_freq *freq0 = malloc(sizeof(s->freq));
+	struct osmocom_ms *ms = calloc(1, sizeof(*ms));
+	struct gsm48_rrlayer *rr = &ms->rrlayer;
+	got_ma = malloc(sizeof(uint16_t) * HOPPING_SIZE);
+	got_ma_len = malloc(1);
+	for (i = 0; i < FREQ_SIZE; i++) s->freq[i].mask = bg;
+	for (i = 0; i < np; i += 2) s->freq[tok[7 + ntl + i]].mask = tok[7 + ntl + i + 1];
+	memcpy(freq0, s->freq, sizeof(s->freq));
+	for (k = 0; k < HOPPING_SIZE; k++) got_ma[k] = (hfill + k) % 65536;
+	*got_ma_len = hl0;
+	ms->cellsel.selected = 1; ms->cellsel.neighbour = 0; ms->cellsel.si = s; ms->cellsel.arfcn = 871;
+	memset(ms->settings.freq_map, 0xff, sizeof(ms->settings.freq_map));
+	rr->state = GSM48_RR_ST_CONN_PEND;
+	rr->wait_assign = 1;
+	rr->cr_hist[0].valid = 1;
+	rr->cr_hist[0].ref.ra = 0xe5; rr->cr_hist[0].ref.t1 = 7; rr->cr_hist[0].ref.t2 = 11; rr->cr_hist[0].ref.t3_high = 2; rr->cr_hist[0].ref.t3_low = 5;
+	memset(rr->cd_now.mob_alloc_lv, 170, sizeof(rr->cd_now.mob_alloc_lv));
+
+	/* the message: the fixed part without its last member mob_alloc_len, then tl - an exact-size heap block */
+	int fixed = (limit == 8 ? (int)sizeof(struct gsm48_imm_ass) : (int)sizeof(struct gsm48_imm_ass_ext)) - 1;
+	int total = fixed + (int)ntl;
+	uint8_t *buf = malloc(total ? total : 1);
+	memset(buf, 0, fixed);
+	struct gsm48_chan_desc cdh; memset(&cdh, 0, sizeof(cdh));
+	cdh.chan_nr = 0x41;
+	if (h) { cdh.h1.h = 1; cdh.h1.tsc = 5; cdh.h1.maio_low = 1; cdh.h1.hsn = 17; } else { cdh.h0.h = 0; cdh.h0.tsc = 5; cdh.h0.arfcn_low = 60; }
+	struct gsm48_req_ref other; memset(&other, 0, sizeof(other)); other.ra = 0x03; other.t1 = 1;
+	if (limit == 8) {
+		struct gsm48_imm_ass *ia = (struct gsm48_imm_ass *)buf;
+		ia->proto_discr = GSM48_PDISC_RR; ia->msg_type = GSM48_MT_RR_IMM_ASS;
+		ia->chan_desc = cdh; ia->timing_advance = 3;
+		ia->req_ref = ours == 1 ? rr->cr_hist[0].ref : other;
+	} else {
+		struct gsm48_imm_ass_ext *ia = (struct gsm48_imm_ass_ext *)buf;
+		ia->proto_discr = GSM48_PDISC_RR; ia->msg_type = GSM48_MT_RR_IMM_ASS_EXT;
+		ia->chan_desc1 = cdh; ia->timing_advance1 = 3;
+		ia->chan_desc2 = cdh; ia->chan_desc2.chan_nr = 0x49; ia->timing_advance2 = 4;
+		ia->req_ref1 = ours == 1 ? rr->cr_hist[0].ref : other;
+		ia->req_ref2 = ours == 2 ? rr->cr_hist[0].ref : other;
+	}
+	for (i = 0; i < ntl; i++) buf[fixed + i] = tok[7 + i];
+	struct msgb msg; memset(&msg, 0, sizeof(msg));
+	msg.l3h = buf; msg.data = buf; msg.tail = buf + total;
+
+	est_calls = 0; got_cause = -1;
+	int rc = limit == 8 ? gsm48_rr_rx_imm_ass(ms, &msg) : gsm48_rr_rx_imm_ass_ext(ms, &msg);
+
+	fprintf(out, "%d %d", rc, est_calls);
+	for (k = 0; k < LV_SIZE; k++) fprintf(out, " %d", rr->cd_now.mob_alloc_lv[k]);
+	if (est_calls) {
+		fprintf(out, " %d %d", got_cause, *got_ma_len);
+		for (k = 0; k < HOPPING_SIZE; k++) fprintf(out, " %d", got_ma[k]);
+		for (i = 0; i < FREQ_SIZE; i++) if (s->freq[i].mask != freq0[i].mask) fprintf(out, " %d %d", i, s->freq[i].mask);
+	}
+	fprintf(out, "\n");
+	return 0;
+}
+#else
+static int run_assign(int n, FILE *out) { (void)n; (void)out; return -1; }
+#endif
 #else
 static int run_render(int n, FILE *out) { (void)n; (void)out; return -1; }
+static int run_assign(int n, FILE *out) { (void)n; (void)out; return -1; }
 #endif
 
 static int parse(char *line)
@@ -279,6 +386,7 @@ int main(int argc, char **argv)
 	}
 	int render = argc > 1 && !strcmp(argv[1], "render");
 	int hist = argc > 1 && !strcmp(argv[1], "hist");
+	int assign = argc > 1 && !strcmp(argv[1], "assign");
 	long caseno = 0;
 	while (fgets(line, sizeof(line), stdin)) {
 		int n = parse(line);
@@ -293,7 +401,7 @@ int main(int argc, char **argv)
 			dup2(pe[1], 2);
 			FILE *out = fdopen(po[1], "w");
 			alarm(20);
-			if (n < 0 || (hist ? run_hist(n, out) : render ? run_render(n, out) : run_case(n, out)) < 0) fprintf(out, "-999\n");
+			if (n < 0 || (assign ? run_assign(n, out) : hist ? run_hist(n, out) : render ? run_render(n, out) : run_case(n, out)) < 0) fprintf(out, "-999\n");
 			fflush(out);
 			_exit(0);
 		}
